@@ -64,6 +64,18 @@ def build_harness(scratch, tags="verif"):
     return out
 
 
+def build_plugin(scratch):
+    """Builds the protoc plugin of the repository (C19)."""
+    out = scratch.path("protoc-gen-grpchan")
+    env = dict(os.environ)
+    env.update(GOENV)
+    p = subprocess.run(["go", "build", "-o", out, "./cmd/protoc-gen-grpchan"], cwd=REPO, env=env,
+                       stdout=subprocess.PIPE, stderr=subprocess.STDOUT, text=True)
+    if p.returncode != 0:
+        raise Infra("plugin build failed:\n" + p.stdout[-3000:])
+    return out
+
+
 def go_env():
     env = dict(os.environ)
     env.update(GOENV)
